@@ -38,6 +38,9 @@ THEOREMS = [
     "Optyx.Props.C03.compileJacobian_true_partial",
     "Optyx.Props.C03.compileGradient_true_partial",
     "Optyx.Props.PinsC03.anchors",
+    "Optyx.Props.C03.jacRow_sound_of_source_equations",
+    "Optyx.Props.JacRowTie.jacRow_step",
+    "Optyx.Props.JacRowTie.step_unique",
 ]
 ASSUMPTIONS = [
     "entries are compared with Py.grad (the C02 theorem turns them into true partial derivatives at regular points)",
